@@ -172,6 +172,7 @@ def main(argv=None):
         "extraction": {
             "sources": sorted({s for r in results for s in r["sources"]}),
             "rewrites": [w for r in results for w in r["rewrites"]],
+            "rewrites_not_applicable": [w for r in results for w in r.get("skipped_rewrites", [])],
             "dropped": [d for r in results for d in r["dropped"]] + cfg.get("dropped", []),
         },
         "bounded": [b for e in extra for b in e.get("bounded", [])] + ([{
